@@ -51,3 +51,15 @@ Proof.
   - unfold width_ok, p64. right; right; right; right. split; [reflexivity|]. reflexivity.
   - unfold I64. split; Lia.lia.
 Qed.
+
+(* known finding F6: the out-of-range error of a nested COSE_Signature is masked by COSE_Sign (every error of a
+   signatures entry becomes UnexpectedItem); the same signature on its own, or as a counter-signature, reports it *)
+Definition f6_sig : value := VArray [VBytes []; VMap [(VInt 9223372036854775808, VInt 0)]; VBytes []].
+Theorem C15_sign_nested_range_masked_refuted :
+  CoseSignature_from_value f6_sig = Err ERange /\
+  CoseSign_from_value (VArray [VBytes []; VMap []; VNull; VArray [f6_sig]]) = Err EUnexpected /\
+  CoseSign1_from_value (VArray [VBytes []; VMap [(VInt 7, f6_sig)]; VNull; VBytes []]) = Err ERange /\
+  CoseMac_from_value (VArray [VBytes []; VMap []; VNull; VBytes [];
+                              VArray [VArray [VBytes []; VMap [(VInt 9223372036854775808, VInt 0)]; VNull]]]) = Err ERange.
+Proof. repeat split; vm_compute; reflexivity. Qed.
+Print Assumptions C15_sign_nested_range_masked_refuted.
